@@ -233,7 +233,6 @@ func RollDoubleCross(src *rand.PCGSource, addLine IntType, pool IntType, points 
 
 			if reachAddRound {
 				addCount += 1
-				maxDice = 10
 			}
 
 			if isShowDetails {
@@ -245,6 +244,10 @@ func RollDoubleCross(src *rand.PCGSource, addLine IntType, pool IntType, points 
 			}
 		}
 
+		if addCount > 0 {
+			// 本轮出现暴击，无论骰子顺序如何，本轮计为10
+			maxDice = 10
+		}
 		resultDice += maxDice
 		allRollCount += addCount
 
